@@ -1,57 +1,131 @@
 """Concretisation: spell the slots of abstract items.  Structure, tabs, spaces, alignment and widths come
 from the specification; this module only chooses identifiers, constants and filler text of the class and
-width the specification asked for (seeded)."""
+width the specification asked for.
+
+Three independent seeds so that the relational properties can vary one thing at a time:
+  ident_seed   identifiers (C18: consistent renaming -- same class, same length)
+  quoted_seed  text inside comments, strings and character constants (C17) + its filler class
+  other_seed   numeric constants, type names, include paths, dates
+Spelling is a function of (seed, abstract line, position in the line, occurrence number of that line), never of
+how much was spelled before: identical abstract lines are spelled identically wherever they stand (C19).
+"""
 import random
 import string
+import hashlib
 
 KEYWORDS = {"auto", "break", "case", "char", "const", "continue", "default", "do", "double", "else", "enum", "extern",
             "float", "for", "goto", "if", "int", "long", "register", "return", "short", "signed", "sizeof", "static",
             "struct", "switch", "typedef", "union", "unsigned", "void", "volatile", "while", "inline", "NULL", "restrict",
             "environ", "defined", "include", "define", "ifdef", "ifndef", "endif", "undef", "elif", "pragma", "error",
-            "warning", "line", "import", "__attribute__"}
+            "warning", "line", "import", "__attribute__", "main"}
 
 LOW = string.ascii_lowercase
+UP = string.ascii_uppercase
 TYPES_BY_W = {3: ["int"], 4: ["char", "long", "void"], 5: ["short", "float"], 6: ["double", "size_t", "t_list", "t_data"],
               7: ["ssize_t", "t_point"], 8: ["t_vector", "unsigned"], 9: ["long long"], 11: ["struct s_pt", "t_hash_table"],
               12: ["unsigned int"], 13: ["unsigned long", "unsigned char"], 14: ["unsigned short"]}
 
+# filler classes for the inside of comments / strings / character constants: same displayed width, no delimiter,
+# no backslash, no line break (C17)
+FILLER = {
+    "letters": LOW + " ",
+    "operators": "+-*/%<>=!&|^~ ",
+    "braces": "{}[]() ",
+    "semis": ";,;, ",
+    "digits": "0123456789 ",
+    "qmarks": "?x?y ",
+    "mixed": LOW + "+-;{}(),=<>#&|0123456789 ",
+}
+FILLER_WORDS = {
+    "keywords": ["if", "for", "return", "int", "while", "else", "goto", "switch", "typedef", "struct", "void", "sizeof", "break"],
+    "include": ["#include", "<x.h>", "#define", "#if", "#endif", "\"y.h\"", "# include"],
+}
+FILLER_CLASSES = list(FILLER) + list(FILLER_WORDS) + ["quote"]
+
+
+def _h(*parts):
+    return hashlib.sha256(repr(parts).encode()).hexdigest()
+
 
 class Speller:
-    def __init__(self, seed=0, style="default"):
-        self.r = random.Random(seed)
-        self.memo = {}
+    def __init__(self, seed=0, ident_seed=None, quoted_seed=None, other_seed=None, quoted_class="letters", style="default"):
+        self.ident_seed = seed if ident_seed is None else ident_seed
+        self.quoted_seed = seed if quoted_seed is None else quoted_seed
+        self.other_seed = seed if other_seed is None else other_seed
+        self.quoted_class = quoted_class
         self.style = style
+        self.memo = {}
+        self.used = set()
         self.guard = "FILE_H"
         self.syms = []
+        self._salt = ""
+        self._pos = 0
 
-    def ident(self, w, first=LOW, rest=LOW + string.digits + "_"):
-        for _ in range(100):
-            s = self.r.choice(first) + "".join(self.r.choice(rest) for _ in range(w - 1))
-            if s not in KEYWORDS and not s.endswith("_") or w == 1 and s not in KEYWORDS:
-                if s not in KEYWORDS:
-                    return s
+    # ---------------------------------------------------------------- identifiers (memoised by identity)
+    def _ident(self, r, w, first=LOW, rest=LOW + string.digits + "_"):
+        for _ in range(200):
+            s = r.choice(first) + "".join(r.choice(rest) for _ in range(w - 1))
+            if s.lower() not in KEYWORDS and s not in KEYWORDS and not (w > 1 and s.endswith("_") and self.style != "odd"):
+                return s
         return "q" * w
 
     def named(self, cls, w, n):
         key = (cls, w, n)
+        if key in self.memo:
+            return self.memo[key]
+        for attempt in range(300):
+            r = random.Random(_h("id", self.ident_seed, cls, w, n, attempt))
+            if cls == "g":
+                s = "g_" + self._ident(r, max(w - 2, 1))
+            elif cls == "m":
+                s = self._ident(r, w, UP, UP + string.digits + "_")
+            elif cls == "f":
+                s = ("ft_" + self._ident(r, w - 3)) if w > 4 and r.random() < 0.6 else self._ident(r, w)
+            else:
+                s = self._ident(r, w)
+            if self.style == "embed" and attempt < 40 and self.used and r.random() < 0.7:
+                # adversarial renaming: build the name around a name already used in this file
+                cands = [u for u in sorted(self.used) if 2 <= len(u) <= w - 2]
+                if cands:
+                    base = r.choice(cands)
+                    base = base.upper() if cls == "m" else base.lower()
+                    fill = w - len(base) - 1
+                    pad = self._ident(r, fill, UP if cls == "m" else LOW, (UP if cls == "m" else LOW) + string.digits)
+                    s = (base + "_" + pad) if r.random() < 0.5 else (pad + "_" + base)
+                    if cls == "g":
+                        s = "g_" + s[2:] if len(s) > 2 else s
+                    s = s[:w]
+            if self.style == "kwprefix" and attempt < 40 and cls in ("v", "p", "f", "fld") and w >= 4:
+                pre = r.choice([k for k in ("int", "if", "for", "do", "return", "while", "else", "char", "void") if len(k) < w])
+                s = (pre + self._ident(r, w - len(pre), LOW + "_", LOW + string.digits + "_"))[:w]
+                if s.endswith("_"):
+                    s = s[:-1] + "x"
+            if len(s) == w and s not in self.used and s.lower() not in KEYWORDS and s not in KEYWORDS:
+                break
+        self.memo[key] = s
+        self.used.add(s)
+        return s
+
+    def prefixed(self, cls, w, n):
+        pre = {"stag": "s_", "utag": "u_", "etag": "e_", "tname": "t_"}[cls]
+        key = (cls, w, n)
         if key not in self.memo:
-            used = set(self.memo.values())
-            for _ in range(200):
-                if cls == "g":
-                    s = "g_" + self.ident(max(w - 2, 1))
-                elif cls == "m":
-                    s = self.ident(w, string.ascii_uppercase, string.ascii_uppercase + string.digits + "_")
-                elif cls in ("f",):
-                    s = ("ft_" + self.ident(w - 3)) if w > 4 else self.ident(w)
-                else:
-                    s = self.ident(w)
-                if s not in used and s.lower() not in KEYWORDS:
+            for attempt in range(100):
+                r = random.Random(_h("id", self.ident_seed, cls, w, n, attempt))
+                s = pre + self._ident(r, max(w - 2, 1))
+                if s not in self.used:
                     break
             self.memo[key] = s
+            self.used.add(s)
         return self.memo[key]
 
+    # ---------------------------------------------------------------- per-position random streams
+    def _r(self, stream_seed, tag):
+        self._pos += 1
+        return random.Random(_h(tag, stream_seed, self._salt, self._pos))
+
     def number(self, w):
-        r = self.r
+        r = self._r(self.other_seed, "num")
         forms = {
             1: lambda: r.choice("0123456789"),
             2: lambda: r.choice(["42", "07", "1u", "9L", "10", "0U"]),
@@ -62,30 +136,56 @@ class Speller:
         }
         if w in forms:
             return forms[w]()
-        return "1" * w
+        return "".join(r.choice("123456789") for _ in range(w))
+
+    def filler(self, w, avoid=""):
+        r = self._r(self.quoted_seed, "quoted")
+        cls = self.quoted_class
+        if cls == "quote":
+            alphabet = "'\" " + LOW
+        elif cls in FILLER_WORDS:
+            out = ""
+            while len(out) < w:
+                out += r.choice(FILLER_WORDS[cls]) + " "
+            s = out[:w]
+            alphabet = None
+        else:
+            alphabet = FILLER[cls]
+        if alphabet is not None:
+            s = "".join(r.choice(alphabet) for _ in range(w))
+        s = "".join(c if c not in avoid else "x" for c in s)
+        return s
 
     def string(self, w):
-        body = "".join(self.r.choice("abc xyz%d,.;:+-(){}") for _ in range(max(w - 2, 0)))
-        return '"' + body + '"'
+        return '"' + self.filler(max(w - 2, 0), avoid='"\\') + '"'
 
     def char(self, w):
         if w == 3:
-            return "'" + self.r.choice("abcxyz019 +-*/%;{}") + "'"
+            return "'" + self.filler(1, avoid="'\\").replace(" ", "a") + "'"
+        r = self._r(self.quoted_seed, "chr")
         if w == 4:
-            return "'\\" + self.r.choice("nt0\\'\"rabfv") + "'"
-        return "'\\x" + "".join(self.r.choice("0123456789abcdef") for _ in range(w - 4)) + "'"
+            return "'\\" + r.choice("nt0\\'\"rabfv") + "'"
+        return "'\\x" + "".join(r.choice("0123456789abcdef") for _ in range(w - 4)) + "'"
 
     def text(self, w):
-        words = ["the", "norm", "is", "a", "set", "of", "rules", "todo", "x", "fix", "me", "libft", "42"]
-        out = ""
-        while len(out) < w:
-            out += self.r.choice(words) + " "
-        out = out[:w]
-        return out[:-1] + "x" if out.endswith(" ") else out
+        """comment text: no comment delimiter inside, does not start or end with a blank"""
+        s = self.filler(w, avoid="\\")
+        s = s.replace("*/", "*x").replace("/*", "/x").replace("//", "/x")
+        if s.startswith((" ", "*", "/")):
+            s = "x" + s[1:]
+        if s.endswith((" ", "*")) and self.quoted_class != "operators":
+            s = s[:-1] + "x"
+        if s.endswith((" ", "*")):
+            s = s[:-1] + "-"
+        if self.quoted_class in ("operators", "mixed") and len(s) >= 2 and self._r(self.quoted_seed, "end").random() < 0.5:
+            s = s[:-1] + "/"        # adversarial ending: the text touches the closing delimiter with a slash
+        return s
 
     def typ(self, w):
-        return self.r.choice(TYPES_BY_W.get(w, ["int"]))
+        r = self._r(self.other_seed, "ty")
+        return r.choice(TYPES_BY_W.get(w, ["int"]))
 
+    # ---------------------------------------------------------------- items
     def item(self, it):
         s = it["s"]
         if s in ("L", "T"):
@@ -100,43 +200,42 @@ class Speller:
         if s == "stars":
             return "*" * w
         if s == "hfile":
-            return self.ident(max(w - 2, 1), LOW + string.digits, LOW + string.digits + "_-.")[: max(w - 2, 1)] + (".c" if w >= 3 else "")
+            r = self._r(self.other_seed, "hfile")
+            base = self._ident(r, max(w - 2, 1), LOW + string.digits, LOW + string.digits + "_-.")
+            return (base + ".c")[:w] if w >= 3 else base[:w]
         if s == "login":
             key = ("login", w)
             if key not in self.memo:
-                self.memo[key] = self.ident(w, LOW, LOW + string.digits + "-_")
+                self.memo[key] = self._ident(random.Random(_h("login", self.other_seed, w)), w, LOW, LOW + string.digits + "-_")
             return self.memo[key]
         if s == "domain":
             key = ("domain", w)
             if key not in self.memo:
-                base = self.ident(max(w - 3, 1), LOW, LOW + string.digits + "-")
-                self.memo[key] = (base + "." + "fr")[:w] if w >= 4 else base[:w]
-                if len(self.memo[key]) < w:
-                    self.memo[key] = self.memo[key] + "x" * (w - len(self.memo[key]))
+                r = random.Random(_h("domain", self.other_seed, w))
+                base = self._ident(r, max(w - 3, 1), LOW, LOW + string.digits + "-")
+                d = (base + ".fr")[:w] if w >= 4 else base[:w]
+                self.memo[key] = d + "x" * (w - len(d))
             return self.memo[key]
         if s == "date":
-            r = self.r
+            r = self._r(self.other_seed, "date")
             return f"{r.randint(1970, 2099):04d}/{r.randint(0, 99):02d}/{r.randint(0, 99):02d} {r.randint(0, 99):02d}:{r.randint(0, 99):02d}:{r.randint(0, 99):02d}"
         if s in ("vbad", "fbad"):
             key = (s, w, n)
             if key not in self.memo:
-                base = self.ident(w - 1)
-                self.memo[key] = base[:1] + self.r.choice(string.ascii_uppercase) + base[1:]
+                r = random.Random(_h("id", self.ident_seed, s, w, n))
+                base = self._ident(r, w - 1)
+                self.memo[key] = base[:1] + r.choice(UP) + base[1:]
             return self.memo[key]
         if s == "guard":
             return self.guard
         if s == "txt":
             return self.text(w)
         if s in ("stag", "utag", "etag", "tname"):
-            pre = {"stag": "s_", "utag": "u_", "etag": "e_", "tname": "t_"}[s]
-            key = (s, w, n)
-            if key not in self.memo:
-                self.memo[key] = pre + self.ident(max(w - 2, 1))
-            return self.memo[key]
+            return self.prefixed(s, w, n)
         if s == "econst":
             return self.named("m", w, 100 + n)
         if s == "inc":
-            return self.ident(w, LOW, LOW + "_")
+            return self._ident(self._r(self.other_seed, "inc"), w, LOW, LOW + "_")
         if s == "num":
             return self.number(w)
         if s == "str":
@@ -147,5 +246,7 @@ class Speller:
             return self.typ(w)
         raise ValueError(f"unknown slot class {s}")
 
-    def render(self, items):
+    def render(self, items, salt=""):
+        self._salt = salt
+        self._pos = 0
         return "".join(self.item(it) for it in items)
